@@ -198,3 +198,53 @@ Definition has_unguarded (spec : msgspec) : bool :=
 
 Definition spec_named (names : list string) (spec : msgspec) : bool :=
   existsb (String.eqb (ms_name spec)) names.
+
+(** ** Nested transactions (x/authz MsgExec), all depths.
+    A transaction is a forest: a leaf is a Paloma message, [NExec] an authz.MsgExec with the messages
+    it wraps. [flat lim] is flattenMsgs (x/paloma/ante.go) with [lim] = maxNestedMsgDepth levels of
+    descent allowed: descending once more REFUSES the transaction ([None]); nothing is ever skipped.
+    (The MsgExec wrappers themselves carry no metadata and are left out.) *)
+Inductive nmsg := NLeaf (x : msgspec * msg) | NExec (inner : list nmsg).
+
+Fixpoint flat (lim : nat) (m : nmsg) {struct m} : option (list (msgspec * msg)) :=
+  match m with
+  | NLeaf x => Some [x]
+  | NExec inner =>
+    match lim with
+    | O => None
+    | S l =>
+      (fix go (ms : list nmsg) : option (list (msgspec * msg)) :=
+         match ms with
+         | [] => Some []
+         | h :: t => match flat l h, go t with
+                     | Some a, Some b => Some (a ++ b)
+                     | _, _ => None
+                     end
+         end) inner
+    end
+  end.
+
+Fixpoint flat_list (lim : nat) (ms : list nmsg) : option (list (msgspec * msg)) :=
+  match ms with
+  | [] => Some []
+  | h :: t => match flat lim h, flat_list lim t with
+              | Some a, Some b => Some (a ++ b)
+              | _, _ => None
+              end
+  end.
+
+(** x occurs somewhere in the forest, at whatever depth *)
+Fixpoint occurs (x : msgspec * msg) (m : nmsg) {struct m} : Prop :=
+  match m with
+  | NLeaf y => x = y
+  | NExec inner => (fix any (ms : list nmsg) : Prop := match ms with [] => False | h :: t => occurs x h \/ any t end) inner
+  end.
+
+Definition ante_nested (carry : bool) (lim : nat) (g : grants) (tx : list nmsg) : bool :=
+  match flat_list lim tx with
+  | None => false
+  | Some l => ante_tx carry g l
+  end.
+
+Fixpoint wrap (depth : nat) (m : nmsg) : nmsg :=
+  match depth with O => m | S d => NExec [wrap d m] end.
